@@ -173,13 +173,16 @@ Print Assumptions C15_no_empty_referrers_page.
 
 (* ---------- the limit ---------- *)
 
-(* MaxMetadataBytes <= 0 means the (generated) default; at most that many bytes pass the
-   reader; a page is produced only from a well-formed document that fits, a larger document
+(* MaxMetadataBytes <= 0 means the (generated) default; what passes limitReader ([seen]) is a prefix of the body
+   of at most that many bytes; a page is produced only from a well-formed document that fits, a larger document
    is an error; a successful listing decoded only fitting documents. *)
 Theorem C15_limit :
   (forall n, (n <= 0)%Z -> eff_limit n = defaultMaxMetadataBytes) /\
   (forall n, (0 < n)%Z -> eff_limit n = n) /\
-  (forall limit total, (Z.of_N (max_read limit total) <= eff_limit limit)%Z /\ (max_read limit total <= total)%N) /\
+  (forall limit body,
+     (Z.of_nat (length (seen limit body)) <= eff_limit limit)%Z /\
+     (exists rest, body = seen limit body ++ rest) /\
+     ((Z.of_nat (length body) <= eff_limit limit)%Z -> seen limit body = body)) /\
   (forall c rs p, handle c rs = inr p ->
      rs_json_ok rs = true /\ (Z.of_N (rs_doc_len rs) <= eff_limit (c_limit c))%Z) /\
   (forall c rs, (eff_limit (c_limit c) < Z.of_N (rs_doc_len rs))%Z -> exists e, handle c rs = inl e) /\
